@@ -11,39 +11,39 @@ import (
 
 // Message states.
 const (
-	MSent    = iota // request in the network
-	MHandling       // handler running / blocked on the target
-	MHandled        // response produced, not yet delivered
-	MDone           // finished (reply delivered, dropped, or failed)
+	MSent     = iota // request in the network
+	MHandling        // handler running / blocked on the target
+	MHandled         // response produced, not yet delivered
+	MDone            // finished (reply delivered, dropped, or failed)
 )
 
 type Msg struct {
-	ID       string
-	From, To int
-	FromInc  int
-	Kind     string // AE | RV | IS
-	State    int
-	AE       raft.AppendEntriesRequest
-	RV       raft.RequestVoteRequest
-	IS       raft.InstallSnapshotRequest
-	ReqWire  []byte
-	AEr      raft.AppendEntriesResponse
-	RVr      raft.RequestVoteResponse
-	ISr      raft.InstallSnapshotResponse
-	RespWire []byte
-	Err      error // error for the sender
-	Replied  bool  // sender may proceed
-	Order    int   // global send order (age)
-	SentAt   int64 // timed mode: tick of sending
+	ID        string
+	From, To  int
+	FromInc   int
+	Kind      string // AE | RV | IS
+	State     int
+	AE        raft.AppendEntriesRequest
+	RV        raft.RequestVoteRequest
+	IS        raft.InstallSnapshotRequest
+	ReqWire   []byte
+	AEr       raft.AppendEntriesResponse
+	RVr       raft.RequestVoteResponse
+	ISr       raft.InstallSnapshotResponse
+	RespWire  []byte
+	Err       error // error for the sender
+	Replied   bool  // sender may proceed
+	Order     int   // global send order (age)
+	SentAt    int64 // timed mode: tick of sending
 	HandledAt int64
-	Dups     int
-	sender   *vsched.Task
-	reqCanon string
+	Dups      int
+	sender    *vsched.Task
+	reqCanon  string
 	// wire orders the accesses of sender and receiver for the race detector:
 	// a message transfer is a real happens-before edge (the network), which the
 	// invisible scheduler hand-offs would otherwise hide.
-	wire sync.Mutex
-	handler  *vsched.Task
+	wire    sync.Mutex
+	handler *vsched.Task
 }
 
 type Network struct {
